@@ -98,6 +98,7 @@ type c14Profile struct {
 	pMin        int // per mille of near-minimum sized orders
 	pTie        int // per mille of adds re-using an existing price (tie / scaled / adjacent)
 	commitEvery int
+	noExpiry    bool // deep books: the orders must live long enough for the book to reach its depth
 	reloadPm    int
 }
 
@@ -139,9 +140,13 @@ func c14ProfileFor(r *rand.Rand, thorough bool, idx int) c14Profile {
 	if thorough {
 		switch k := idx % 12; {
 		case k == 0:
-			p.depth, p.ops = 2000+r.Intn(1000), 3000+r.Intn(1000)
+			p.depth = 2000 + r.Intn(1000)
+			p.ops = p.depth*5/4 + 1000 + r.Intn(1000)
+			p.noExpiry = true
 		case k < 3:
-			p.depth, p.ops = 400+r.Intn(800), 1000+r.Intn(1500)
+			p.depth = 400 + r.Intn(800)
+			p.ops = p.depth*5/4 + 500 + r.Intn(1000)
+			p.noExpiry = r.Intn(2) == 0
 		}
 	}
 	if r.Intn(4) == 0 {
@@ -162,6 +167,9 @@ func runC14(ctx *WorkCtx, idx int) {
 	}
 	c.prof = c14ProfileFor(r, ctx.Thorough(), idx)
 	c.expirePeriod = uint64(8 + r.Intn(40))
+	if c.prof.noExpiry {
+		c.expirePeriod = 1 << 40
+	}
 	c.c0 = types.CoinID(1 + r.Intn(50))
 	c.c1 = c.c0 + types.CoinID(1+r.Intn(50))
 	a0 := new(big.Int).Mul(RandLog(r, 8), pow10(18))
@@ -178,7 +186,7 @@ func runC14(ctx *WorkCtx, idx int) {
 		if depth < c.prof.depth {
 			pAdd = 600
 		}
-		if depth < c.prof.depth/3 && i < c.prof.ops/2 {
+		if depth < c.prof.depth/3 && i < c.prof.ops/2 || c.prof.noExpiry && depth < c.prof.depth*9/10 && i < c.prof.ops*3/4 {
 			pAdd = 900
 		}
 		k := r.Intn(1000)
